@@ -39,6 +39,7 @@ ASSUMPTIONS = ["one physical exit per device; balls only enter a device when a s
                "later than ball_missing_timeout, a ball entering a device while that device's own ejected ball is under way, a "
                "playfield switch hit by another ball while a ball ejected to the playfield is falling back"]
 
+STARVED_SIG = "stuck:source-not-woken-after-incoming-ball-lost:two-sources"
 KNOWN_SIG = "fired-into-full-device:two-sources"      # D16, only for the two_src topology with a ball from the other source
 OUTCOMES = ["ok"] * 7 + ["fallback", "stuck", "late", "astray"]
 
@@ -137,6 +138,16 @@ def d16_case(r):
             "ops": [["add_ball"], ["rest"], ["lock", True], ["rest"], ["release_lock"], ["add_ball"], ["rest"]]}
 
 
+def starved_case():
+    """witness of the second two-sources finding (found by the thorough C05 stream, shrunk): the trough's second ball goes
+    astray while the lock waits for room in the plunger; the ball is declared lost, the room is free, the lock is never woken"""
+    return {"p": {"topo": "two_src", "slots": 3, "balls": 3, "tries_trough": 2, "tries_plunger": 3, "tries_lock": 2,
+                  "eject_to": 3000, "missing_to": 4000, "idle_to": 2000},
+            "timing": {"leave": 0.0625, "transit": 0.25, "fallback": 1.5, "late": 0.5, "pf_switch": True},
+            "outcomes": {"trough": ["ok", "astray"], "plunger": [], "lock": []},
+            "ops": [["add_ball"], ["add_ball"], ["wait", 64], ["lock", False]]}
+
+
 def shrink(case, sig):
     def fails(ops):
         res = bw.run_case(dict(case, ops=ops), None)
@@ -158,14 +169,14 @@ def eval_case(ctx, case, model, focus):
         # one comparison per case: the whole observed history is an enabled ledger run with equal counts at every step
         ctx.compare(dict(case, what="monitor"), "refines" if res.mismatch is None else res.mismatch, "refines")
     for sig, detail in res.failures:
-        mine = sig.startswith("progress:") or sig.startswith("rest:servable") or sig.startswith("rest:requested") \
+        mine = sig.startswith("progress:") or sig.startswith("stuck:") or sig.startswith("rest:servable") or sig.startswith("rest:requested") \
             or sig.startswith("rest:never") or sig.startswith("rest:device-not-idle") or sig.startswith("rest:eject-queue")
         if (focus == "C05") != mine and not sig.startswith("crash:"):
             ctx.count("other_property_failure")
             continue
         c2 = case
-        unknown = [f for f in ctx.failures if f["signature"] != KNOWN_SIG]
-        if sig != KNOWN_SIG and not unknown:
+        unknown = [f for f in ctx.failures if f["signature"] not in (KNOWN_SIG, STARVED_SIG)]
+        if sig not in (KNOWN_SIG, STARVED_SIG) and not unknown:
             c2 = shrink(case, sig)          # only the first failure of a run is shrunk (it becomes the replay)
         ctx.fail(sig, c2, detail)
     return res
@@ -176,9 +187,11 @@ def run(ctx, focus="C04", ident=ID):
     try:
         if focus == "C04":
             eval_case(ctx, d16_case(ctx.rng("d16")), model, focus)
+        else:
+            eval_case(ctx, starved_case(), model, focus)
         for i in range(ctx.n(600, 6000)):
             eval_case(ctx, gen_case(ctx.rng("case", i), i, heavy=(focus == "C05")), model, focus)
-            if len([f for f in ctx.failures if f["signature"] != KNOWN_SIG]) >= 3:
+            if len([f for f in ctx.failures if f["signature"] not in (KNOWN_SIG, STARVED_SIG)]) >= 3:
                 break                       # a violation is established; the first (shrunk) one is reported
     finally:
         if model is not None:
@@ -186,4 +199,7 @@ def run(ctx, focus="C04", ident=ID):
 
 
 def replay(ctx, rep, focus="C04"):
-    eval_case(ctx, rep["case"], None, focus)
+    case = dict(rep["case"])
+    # the replay file stores floats canonically as strings
+    case["timing"] = {k: (float(v) if isinstance(v, str) else v) for k, v in case["timing"].items()}
+    eval_case(ctx, case, None, focus)
